@@ -40,7 +40,7 @@ def key_type(k):
 
 
 def examples(tier):
-    return 1400 if tier == "quick" else 25000
+    return 5600 if tier == "quick" else 80000
 
 
 @st.composite
